@@ -53,6 +53,7 @@ type target struct {
 	Structs     map[string]structCfg `json:"structs"`      // Go struct type → Lean constructor and the order of its fields
 	Imports     []string             `json:"imports"`      // further Lean modules the group's file imports
 	IterBody    bool                 `json:"iter_body"`    // the function returns an iterator: translate the body of the innermost function literal with a `yield` parameter; `if !yield(x) { return }` appends x to the fragments, which are the result (a consumer that never stops early)
+	ResultRecv  bool                 `json:"result_recv"`  // a method without results that writes to its (pointer) receiver: the receiver's final value is the result
 	Curried     bool                 `json:"curried"`      // the function's body is `return func(…) … { … }`: the literal's body is translated, over the parameters of both
 	OutParams   []string             `json:"out_params"`   // parameters the function writes to (an io.Writer): threaded through as text, returned as the result
 	Props       []string             `json:"props"`
@@ -98,6 +99,7 @@ type fn struct {
 // closure: `name := func(params) error { … }` — an auxiliary definition over the variables it captures; it returns the new
 // values of the captured variables it assigns, or none for a non-nil error
 type closure struct {
+	isBool bool // returns bool instead of error: the definition returns the answer together with the captured state
 	name   string
 	lit    *ast.FuncLit
 	ro     []*types.Var
@@ -694,6 +696,9 @@ func (f *fn) call(x *ast.CallExpr, pre *[]string) string {
 	case "strings.Trim":
 		a := f.args(x, pre)
 		return "(Go.strTrim " + a[0] + " " + a[1] + ")"
+	case "strings.Map":
+		// strings.Map(<function literal>, s): the mapping is the parameter `sanitize` of the target, applied to s
+		return "(sanitize " + f.expr(x.Args[1], pre) + ")"
 	case "strings.TrimSpace":
 		a := f.args(x, pre)
 		return "(Go.trimSpace " + a[0] + ")"
@@ -1280,6 +1285,9 @@ func (f *fn) stmts(list []ast.Stmt, k konts) []string {
 		case *ast.SwitchStmt:
 			return append(out, f.stmts(append([]ast.Stmt{f.switchToIf(x)}, rest...), k)...)
 		case *ast.IfStmt:
+			if lines, ok := f.closureBoolCheck(x, rest, k, &out); ok {
+				return append(out, lines...)
+			}
 			if lines, ok := f.closureCallCheck(x, rest, k, &out); ok {
 				return append(out, lines...)
 			}
@@ -1451,10 +1459,10 @@ func (f *fn) closureDef(x *ast.AssignStmt) ([]string, bool) {
 	}
 	v := f.info.Defs[x.Lhs[0].(*ast.Ident)].(*types.Var)
 	sig := v.Type().(*types.Signature)
-	if sig.Results().Len() != 1 || sig.Results().At(0).Type().String() != "error" {
-		bad("closure %s: only closures returning an error are translated", v.Name())
+	if sig.Results().Len() != 1 || (sig.Results().At(0).Type().String() != "error" && sig.Results().At(0).Type().String() != "bool") {
+		bad("closure %s: only closures returning an error or a bool are translated", v.Name())
 	}
-	cl := &closure{name: f.leanFn + "." + v.Name(), lit: lit}
+	cl := &closure{name: f.leanFn + "." + v.Name(), lit: lit, isBool: sig.Results().At(0).Type().String() == "bool"}
 	for i := 0; i < sig.Params().Len(); i++ {
 		cl.params = append(cl.params, sig.Params().At(i))
 	}
@@ -1482,9 +1490,21 @@ func (f *fn) closureDef(x *ast.AssignStmt) ([]string, bool) {
 	}
 	saveAux, saveCl := f.inAux, f.curClosure
 	f.inAux, f.curClosure = true, cl
-	body := f.stmts(lit.Body.List, konts{fall: "pure (some " + f.tuple(cl.state) + ")", ret: func(v string) string { return "pure " + v }})
+	kk := konts{fall: "pure (some " + f.tuple(cl.state) + ")", ret: func(v string) string { return "pure " + v }}
+	resTy := "(Option " + f.tupleType(cl.state) + ")"
+	if cl.isBool {
+		// the answer and the captured variables as they are at the return
+		kk = konts{fall: "throw .panic", ret: func(v string) string { return "pure (" + v + ", " + f.tuple(cl.state) + ")" }}
+		resTy = "(Bool × " + f.tupleType(cl.state) + ")"
+	}
+	saveRes := f.resTy
+	if cl.isBool {
+		f.resTy = "Bool"
+	}
+	body := f.stmts(lit.Body.List, kk)
+	f.resTy = saveRes
 	f.inAux, f.curClosure = saveAux, saveCl
-	def := []string{"def " + cl.name + " " + strings.Join(binders, " ") + " : M (Option " + f.tupleType(cl.state) + ") := do"}
+	def := []string{"def " + cl.name + " " + strings.Join(binders, " ") + " : M " + resTy + " := do"}
 	def = append(def, ind(body, 2)...)
 	f.aux = append(f.aux, strings.Join(def, "\n"))
 	return nil, true
@@ -1528,6 +1548,41 @@ func (f *fn) closureCallCheck(x *ast.IfStmt, rest []ast.Stmt, k konts, out *[]st
 	lines = append(lines, ind(f.stmts(chk.Body.List, k), 4)...)
 	lines = append(lines, "| some "+f.tuple(cl.state)+" => do")
 	lines = append(lines, ind(f.stmts(rest, k), 4)...)
+	return lines, true
+}
+
+// closureBoolCheck: `if name(args) { … }` for a closure `name` that returns bool
+func (f *fn) closureBoolCheck(x *ast.IfStmt, rest []ast.Stmt, k konts, out *[]string) ([]string, bool) {
+	if x.Init != nil || x.Else != nil {
+		return nil, false
+	}
+	call, ok := x.Cond.(*ast.CallExpr)
+	if !ok {
+		return nil, false
+	}
+	id, ok := call.Fun.(*ast.Ident)
+	if !ok {
+		return nil, false
+	}
+	cv, _ := f.info.Uses[id].(*types.Var)
+	cl := f.closures[cv]
+	if cl == nil || !cl.isBool {
+		return nil, false
+	}
+	var args []string
+	args = append(args, f.t.ExtraArgs...)
+	if f.t.Recursive {
+		args = append(args, f.selfRef())
+	}
+	for _, v := range append(append([]*types.Var{}, cl.ro...), cl.state...) {
+		args = append(args, f.nameOf(v))
+	}
+	args = append(args, f.args(call, out)...)
+	b := f.tmp()
+	lines := []string{"let (" + b + ", " + f.tuple(cl.state) + ") ← " + cl.name + " " + strings.Join(args, " "), "if " + b + " then do"}
+	lines = append(lines, ind(f.stmts(append(append([]ast.Stmt{}, x.Body.List...), rest...), k), 2)...)
+	lines = append(lines, "else do")
+	lines = append(lines, ind(f.stmts(rest, k), 2)...)
 	return lines, true
 }
 
@@ -1635,6 +1690,10 @@ func (f *fn) ret(x *ast.ReturnStmt, k konts, out *[]string) []string {
 		// a closure returning an error: nil hands back the captured variables it assigned, anything else is the failure
 		if len(x.Results) != 1 {
 			bad("closure return %s", f.text(x))
+		}
+		if f.curClosure.isBool {
+			b := f.expr(x.Results[0], &pre)
+			return append(pre, "pure ("+b+", "+f.tuple(f.curClosure.state)+")")
 		}
 		if id, ok := x.Results[0].(*ast.Ident); ok && id.Name == "nil" {
 			return []string{"pure (some " + f.tuple(f.curClosure.state) + ")"}
@@ -2119,6 +2178,15 @@ func (f *fn) translate() string {
 		}
 		f.resTy = tty
 		k = konts{fall: "pure " + tup, ret: func(v string) string { return "pure " + tup }}
+	}
+	if f.t.ResultRecv {
+		if sig.Results().Len() != 0 || f.decl.Recv == nil || len(f.decl.Recv.List[0].Names) != 1 {
+			bad("result_recv on a function with results or without a named receiver")
+		}
+		rv := f.info.Defs[f.decl.Recv.List[0].Names[0]].(*types.Var)
+		f.resTy = f.leanType(rv.Type())
+		f.named = []string{f.nameOf(rv)} // the receiver plays the part of a named result: a bare return hands back its current value
+		k = konts{fall: "pure " + f.namedTuple(), ret: func(v string) string { return "pure " + v }}
 	}
 	body := append(head, f.stmts(bodyList, k)...)
 	var def []string
